@@ -213,6 +213,15 @@ def disc_def(rng, did):
         E["reprs"] = {"plain": [repr_], "align_combined": ["align(16), %s" % repr_], "align_split_first": ["align(16)", repr_],
                       "align_split_last": [repr_, "align(16)"], "C": ["C, %s" % repr_], "trailing_comma_split": ["%s," % repr_, "align(16),"]}[mode]
     E["repr_mode"] = mode
+    # one explicit discriminant assembled by a macro_rules! helper from an expression fragment: `$e0 * 2 + r` with e0 = `a + 1`
+    # (the fragment is grouped invisibly; the value must survive the copy to the discriminant enum)
+    E["macro_expr"] = {}
+    if rng.random() < 0.35:
+        ks = [k for k, v in enumerate(E["variants"]) if v["disc"] and not v.get("discx", "").startswith(("BASE", "-")) and 2 <= E["absvals"][k] <= 100]
+        if ks:
+            k = rng.choice(ks)
+            val = E["absvals"][k]
+            E["macro_expr"] = dict(k=k, a="%d + 1" % (val // 2 - 1), r=val % 2)
     E["dname"] = rng.choice(["", "", "Kind%d" % did])
     E["dvis"] = rng.choice(["", "", "pub", "pub(crate)", "pub(super)"])
     E["dder"] = rng.random() < 0.7
@@ -248,17 +257,26 @@ def disc_module(E):
     src += "pub mod inner {\n    use vsupport::*;\n    use super::BASE;\n"
     lines = ["#[derive(Debug, Clone, PartialEq, strum::EnumDiscriminants)]"] + ["#[repr(%s)]" % r for r in E["reprs"]] + attrs
     lines.append("pub enum %s%s%s {" % (n, decl, where))
-    for v in E["variants"]:
+    mx = E.get("macro_expr")
+    ref_discx = {}
+    for k, v in enumerate(E["variants"]):
         if v.get("dser"):
             v = dict(v)
             v["xattrs"] = list(v.get("xattrs", [])) + ['#[strum_discriminants(strum(serialize = %s))]' % D.rs_str(s) for s in v["dser"]]
+        if mx and mx["k"] == k:
+            v = dict(v)
+            v["discx"] = "$e0 * 2 + %d" % mx["r"]
+            ref_discx[k] = "(%s) * 2 + %d" % (mx["a"], mx["r"])
         lines += D.print_variant(v, 0, with_strum=False, indent="    ")
     lines.append("}")
+    if mx:
+        lines = (["macro_rules! declare_%s {" % n.lower(), "    ($e0:expr) => {"] + ["        " + l for l in lines] +
+                 ["    };", "}", "declare_%s!(%s);" % (n.lower(), mx["a"])])
     # reference enum for the layout clause: same repr lines, same discriminants, no fields
     lines += ["#[repr(%s)]" % r for r in E["reprs"]]
     lines.append("pub enum Ref%d {" % E["id"])
-    for v in E["variants"]:
-        lines.append("    %s%s," % (D.vid(v), (" = " + (v.get("discx") or str(v["disc"][0]))) if v["disc"] else ""))
+    for k, v in enumerate(E["variants"]):
+        lines.append("    %s%s," % (D.vid(v), (" = " + (ref_discx.get(k) or v.get("discx") or str(v["disc"][0]))) if v["disc"] else ""))
     lines.append("}")
     src += "\n".join("    " + l for l in lines) + "\n}\n"
     src += "use inner::*;\n"
